@@ -25,8 +25,19 @@ def _real(v):
     return z3.ToReal(v) if v.sort() == T.Int else v
 
 
-deffold("bden", "sum", T.Real, lambda eng, k, v: _real(v) * T.bmono(eng.facts.key(k)))
-deffold("sden", "sum", T.Real, lambda eng, k, v: _real(v) * T.smono(eng.facts.key(k)))
+def _bterm(eng, k, v):
+    # v * bmono(k) with bmono(k) in {0,1} (L2): written as an if-then-else so that the arithmetic stays linear
+    m = T.bmono(eng.facts.key(k))
+    return z3.If(m == 0, z3.RealVal(0), z3.If(m == 1, _real(v), _real(v) * m))
+
+
+def _sterm(eng, k, v):
+    m = T.smono(eng.facts.key(k))
+    return z3.If(m == 1, _real(v), z3.If(m == -1, -_real(v), _real(v) * m))
+
+
+deffold("bden", "sum", T.Real, _bterm)
+deffold("sden", "sum", T.Real, _sterm)
 deffold("size", "sum", T.Int, lambda eng, k, v: z3.IntVal(1))
 deffold("allconst", "all", T.Bool, lambda eng, k, v: z3.Length(k) == 0)
 deffold("nozero", "all", T.Bool, lambda eng, k, v: v != 0)
